@@ -54,7 +54,10 @@ fn run_as(uid: u32, f: impl FnOnce(&mut Vec<u8>)) -> Vec<u8> {
     out
 }
 
-pub fn suite(ctx: &mut Ctx) {
+/// `cold`: the harness process has not used the library before forking, so every caller of the matrix initialises the
+/// library's process-wide state (the procfs handle, the cached sysctl) itself, with its own privileges — done by an
+/// unrecorded lookup in the child before the recorded one.
+pub fn suite(ctx: &mut Ctx, cold: bool) {
     let uids = [0u32, 1000, 2000];
     let dir_modes = [0o1777u32, 0o777, 0o1775, 0o755];
     let top = ctx.work.join("c15");
@@ -78,6 +81,8 @@ pub fn suite(ctx: &mut Ctx) {
                 fs::write(rootdir.join("target/f"), b"x").unwrap();
                 fs::create_dir(rootdir.join("s")).unwrap();
                 std::os::unix::fs::symlink("../target", rootdir.join("s/link")).unwrap();
+                fs::create_dir_all(top.join("warm/a")).unwrap();
+                let _ = std::os::unix::fs::symlink("a", top.join("warm/l"));
                 fs::set_permissions(&top, fs::Permissions::from_mode(0o755)).unwrap();
                 fs::set_permissions(&rootdir, fs::Permissions::from_mode(0o755)).unwrap();
                 fs::set_permissions(rootdir.join("s"), fs::Permissions::from_mode(dir_mode)).unwrap();
@@ -120,6 +125,13 @@ pub fn suite(ctx: &mut Ctx) {
                             n += 1;
                             let id = format!("p{n}{}", if emulated { "e" } else { "k" });
                             let out = run_as(caller, |buf| {
+                                if cold {
+                                    if let Ok(mut w) = Root::open(top.join("warm")) {
+                                        w.verif_set_emulated(true);
+                                        let _ = w.resolve("l/../l");
+                                    }
+                                    let _ = pathrs::verif::global_procfs();
+                                }
                                 let mut root = match Root::open(&rootdir) {
                                     Ok(r) => r,
                                     Err(e) => {
